@@ -118,6 +118,10 @@ class AlarmFired(BaseException):
     pass
 
 
+class TooManyTimeouts(Exception):
+    pass
+
+
 def _alarm(signum, frame):
     raise AlarmFired()
 
@@ -191,6 +195,10 @@ class Env:
             return ("viol",)
         except AlarmFired:
             rec.violation("parse-did-not-return-in-20s", case, {"what": what, "n": n})
+            self.timeouts = getattr(self, "timeouts", 0) + 1
+            if self.timeouts >= 5:
+                # each further one costs 20 s and says nothing new: end the shard (the violations stand)
+                raise TooManyTimeouts()
             return ("viol",)
         except RecursionError as e:
             rec.violation("raised-RecursionError", case, {"what": f"{what}: {str(e)[:100]}"})
@@ -256,18 +264,22 @@ def run_shard(spec, rec):
     rec.count("monitored_code_objects", 0)
     rec.maxi("max:monitored_code_objects", env.steps.codes)
     kind = spec["kind"]
-    if kind == "enum":
-        shard_enum(env, spec, rec)
-    elif kind == "rand":
-        shard_rand(env, spec, rec)
-    elif kind == "mut":
-        shard_mut(env, spec, rec)
-    elif kind == "tmpl":
-        shard_tmpl(env, spec, rec)
-    elif kind == "roundtrip":
-        shard_roundtrip(env, spec, rec)
-    else:
-        shard_scale(env, spec, rec)
+    try:
+        if kind == "enum":
+            shard_enum(env, spec, rec)
+        elif kind == "rand":
+            shard_rand(env, spec, rec)
+        elif kind == "mut":
+            shard_mut(env, spec, rec)
+        elif kind == "tmpl":
+            shard_tmpl(env, spec, rec)
+        elif kind == "roundtrip":
+            shard_roundtrip(env, spec, rec)
+        else:
+            shard_scale(env, spec, rec)
+    except TooManyTimeouts:
+        rec.count("shards_ended_after_5_timeouts")
+        rec.exhaustive = False
 
 
 def shard_enum(env, spec, rec):
